@@ -248,9 +248,18 @@ RECURSIVE MT(_,_,_,_,_), M1(_,_,_,_,_), Ctl(_,_,_,_,_),
           EnumAlts(_,_,_,_), EnumEntries(_,_,_,_,_)
 
 \* group an unwrap target denotes: ~name where name is a rule whose (single) alternative is an array or a map
+\* names and parentheses are transparent (C08): the target is reached through single-alternative aliases and redundant parentheses
+RECURSIVE UnwrapResolve(_,_,_)
+UnwrapResolve(R, t1, fuel) ==
+  IF t1.k \in {"arr", "map", "tag"} THEN t1
+  ELSE IF fuel = 0 THEN [k |-> "none"]
+  ELSE IF t1.k = "paren" /\ Len(t1.t.alts) = 1 THEN UnwrapResolve(R, t1.t.alts[1], fuel - 1)
+  ELSE IF t1.k = "ref" /\ IsTypeRule(R, t1.n)
+       THEN (LET ty == InstType(R, t1.n, t1.args) IN IF Len(ty.alts) = 1 THEN UnwrapResolve(R, ty.alts[1], fuel - 1) ELSE [k |-> "none"])
+  ELSE [k |-> "none"]
 UnwrapTarget(R, t) ==
   LET ty == InstType(R, t.n, t.args) IN
-  IF IsTypeRule(R, t.n) /\ Len(ty.alts) = 1 THEN ty.alts[1] ELSE [k |-> "none"]
+  IF IsTypeRule(R, t.n) /\ Len(ty.alts) = 1 THEN UnwrapResolve(R, ty.alts[1], 5) ELSE [k |-> "none"]
 
 \* the choice a group denotes under & : the types of its entries (recursively through groups)
 EnumEntries(R, es, i, fuel, acc) ==
